@@ -622,3 +622,111 @@ def family_bound_gap():
     # controls: same shapes, optimum equal to the greedy answer
     out.append(_fam(3, [_g("rzz", 1, 2, params=[1.2]), _g("rzz", 1, 2, params=[1.2]), _g("swap", 0, 1)], 2, exact=False, seed=8))
     return out
+
+
+def family_full_pair():
+    """Both cut kinds permitted, unrestricted search: two subcircuits that are exactly full (width == limit) and a qubit pair across them that
+    is hit by several two-qubit gates whose kappas multiply to more than 16.  Neither wire can be cut on its own (the other side has no room),
+    so the candidates are "cut every crossing gate" and "cut both wires in front of the first crossing gate" (16, all later gates on the pair
+    are then free inside a fresh two-wire subcircuit) — the latter is the optimum.  Controls: one crossing gate (the gate cut wins), one side
+    with room (a single wire cut wins), kappa product below 16, wire cuts not permitted."""
+    out = []
+    two_pairs = lambda g: [_g(g, 0, 1), _g(g, 2, 3)]
+    # swap-like gates (kappa 7): two crossing gates are enough (49 > 16)
+    out.append(_fam(4, two_pairs("swap") + [_g("swap", 1, 2), _g("swap", 1, 2)], 2, exact=False, seed=0))
+    out.append(_fam(4, [_g("iswap", 1, 0), _g("iswap", 3, 2), _g("swap", 2, 1), _g("iswap", 1, 2)], 2, exact=False, seed=1))
+    out.append(_fam(4, [_g("swap", 3, 1), _g("iswap", 0, 2), _g("dcx", 0, 1), _g("h", 0), _g("swap", 1, 0)], 2, exact=False, seed=2))
+    # kappa-3 gates: three crossing gates (27 > 16)
+    out.append(_fam(4, two_pairs("swap") + [_g("cx", 1, 2), _g("cz", 1, 2), _g("cy", 2, 1)], 2, exact=False, seed=3))
+    out.append(_fam(4, [_g("cx", 0, 1)] * 2 + [_g("cx", 2, 3)] * 2 + [_g("cx", 1, 2)] * 3, 2, seed=4))
+    # a cheap and an expensive crossing gate (21 > 16), a one-qubit gate between them
+    out.append(_fam(4, two_pairs("iswap") + [_g("cx", 2, 1), _g("x", 1), _g("swap", 1, 2)], 2, exact=False, seed=5))
+    # three qubits per subcircuit
+    blocks3 = [_g("swap", 0, 1), _g("swap", 1, 2), _g("swap", 3, 4), _g("swap", 4, 5)]
+    out.append(_fam(6, blocks3 + [_g("swap", 2, 3), _g("iswap", 3, 2)], 3, exact=False, seed=6))
+    # the crossing gates are followed by a gate between the old blocks (the fresh two-wire subcircuit stays apart, one more cut is needed)
+    out.append(_fam(4, two_pairs("swap") + [_g("swap", 1, 2), _g("iswap", 1, 2), _g("cx", 0, 3)], 2, exact=False, seed=8))
+    # controls
+    out.append(_fam(4, two_pairs("swap") + [_g("swap", 1, 2)], 2, exact=False, seed=9))                       # one crossing gate
+    out.append(_fam(3, [_g("swap", 0, 1), _g("swap", 1, 2), _g("swap", 1, 2)], 2, exact=False, seed=10))       # one side has room
+    out.append(_fam(4, two_pairs("cx") + [_g("cx", 1, 2), _g("cx", 1, 2)], 2, seed=11))                       # 9 < 16
+    out.append(_fam(4, two_pairs("swap") + [_g("swap", 1, 2), _g("swap", 1, 2)], 2, wlo=False, exact=False, seed=12))
+    out.append(_fam(4, two_pairs("swap") + [_g("swap", 1, 2), _g("swap", 1, 2)], 2, glo=False, exact=False, seed=13))
+    return out
+
+
+def min_gate_cut_partition(payload, gs=None, max_nq=12):
+    """Independent optimum for requests that permit gate cuts only, whatever the number of gates: a plan is a set of cut gates, the uncut gates'
+    connected components must meet the width limit — so the minimum is, over all partitions of the touched qubits into blocks of at most
+    `width` qubits, the smallest product of the kappas of the gates that cross blocks (a gate without a decomposition may not cross).
+    Branch and bound over set partitions (kappa >= 1, so the partial product is a lower bound).  Returns the minimum gamma, None if no plan
+    meets the limit, "skip" if not applicable."""
+    if payload["wire_lo"] or not payload["gate_lo"]:
+        return "skip"
+    gates = two_qubit_gates(payload)
+    if any(len(g["qubits"]) != 2 for _, g in gates):
+        return "skip"
+    gs = gs if gs is not None else gammas(payload)
+    qs = sorted({q for _, g in gates for q in g["qubits"]})
+    if len(qs) > max_nq:
+        return "skip"
+    pos = {q: i for i, q in enumerate(qs)}
+    n, W = len(qs), payload["width"]
+    INF = float("inf")
+    w = [[1.0] * n for _ in range(n)]
+    for k, g in gates:
+        a, b = (pos[q] for q in g["qubits"])
+        kap = INF if gs[k] in (None, "error") else float(Fraction(gs[k]))
+        if kap < 1.0 - 1e-12:
+            return "skip"
+        w[a][b] *= kap
+        w[b][a] *= kap
+    best = [INF]
+    block, sizes = [-1] * n, []
+
+    def rec(q, cost):
+        if cost >= best[0]:
+            return
+        if q == n:
+            best[0] = cost
+            return
+        for blk in range(len(sizes) + 1):
+            new = blk == len(sizes)
+            if new:
+                sizes.append(0)
+            if sizes[blk] < W:
+                c = cost
+                for p in range(q):
+                    if block[p] != blk:
+                        c *= w[q][p]
+                block[q] = blk
+                sizes[blk] += 1
+                rec(q + 1, c)
+                sizes[blk] -= 1
+                block[q] = -1
+            if new:
+                sizes.pop()
+    if n and W >= 1:
+        rec(0, 1.0)
+    elif not n:
+        return 1.0
+    return None if best[0] == INF else best[0]
+
+
+_LONG_A = [(0, 3), (1, 7), (7, 1), (2, 4), (8, 0), (6, 4), (9, 8), (9, 3), (2, 5), (1, 4), (4, 3), (9, 8), (1, 0), (4, 3), (3, 9), (8, 3), (7, 5), (6, 7),
+           (1, 5), (1, 7), (4, 7), (0, 9), (5, 7), (0, 3), (8, 2), (0, 6), (1, 3), (0, 4), (9, 5), (1, 9), (4, 9), (2, 3), (8, 2), (7, 0), (6, 7), (0, 9)]
+_LONG_B = [(5, 8), (1, 5), (0, 6), (4, 9), (7, 4), (8, 2), (2, 7), (5, 0), (5, 7), (3, 6), (0, 7), (8, 2), (3, 9), (9, 6), (1, 2), (3, 5), (0, 6), (7, 9),
+           (8, 2), (7, 8), (2, 0), (6, 4), (8, 7), (0, 9), (6, 4), (1, 6), (2, 9), (0, 8), (3, 2), (0, 2), (6, 5), (2, 4), (0, 8), (5, 1), (0, 4), (3, 2)]
+
+
+def family_long_search():
+    """Unrestricted requests (max_backjumps=None, gamma limit far above the optimum) whose search is long: dense circuits on ten qubits with 36
+    two-qubit gates, gate cuts only, for which the best-first search performs about 13 000 backjumps (more than the default limit of 10 000)
+    before the frontier reaches the incumbent.  "No backjump limit" must mean none: the minimum is reported as reached and equals the
+    independent optimum (`min_gate_cut_partition`).  Routed through the oracle only (`oracle_only`: the model's search is not run on them —
+    random stream and fuel of the driver line are sized for small instances); `oracle_seeds` limits the oracle's re-runs under other seeds."""
+    out = []
+    out.append(_fam(10, [_g("cx", a, b) for a, b in _LONG_A], 4, wlo=False, mg=1e12, seed=0, oracle_only=True, oracle_seeds=[]))
+    out.append(_fam(10, [_g("cz" if k % 3 == 0 else "cx", a, b) for k, (a, b) in enumerate(_LONG_B)], 6, wlo=False, mg=1e12, seed=3,
+                    oracle_only=True, oracle_seeds=[]))
+    return out
